@@ -2,6 +2,8 @@
 import json, os, random, re, time
 from vlib import tlc, tlaval, gorun, core
 
+PROPS = ['C01', 'C02']
+
 INSTR = {"files": {
     "buffer_manager.go": {"funcs": ["bufferList.pop", "bufferList.push"]},
     "buffer_slice.go": {"funcs": ["bufferHeader.*"], "recvIndex": ["bufferHeader"]},
